@@ -40,6 +40,20 @@ Theorem C24_autofill_fee_bound :
 Proof. exact autofill_fee_bound. Qed.
 Print Assumptions C24_autofill_fee_bound.
 
+(* the two together, with hypotheses on the result only in terms a node enforces anyway *)
+Corollary C24_autofill_bounded_partial :
+  forall cv hard_gas hard_storage ctr offset cs sims,
+  cs <> [] -> length sims = length cs ->
+  (cv <> BL \/ (2 <= length cs)%nat) ->
+  let out := autofill cv hard_gas hard_storage ctr offset cs sims in
+  total_size out < 2 ^ 64 -> total_gas out < 2 ^ 64 -> nlen cs < 2 ^ 32 ->
+  covers_min cv out = true.
+Proof.
+  intros cv hg hs ctr off cs sims Hne Hlen Hcv out Hs Hg Hn. unfold covers_min. apply N.leb_le.
+  apply autofill_covers_min; try assumption. apply autofill_fee_bound; assumption.
+Qed.
+Print Assumptions C24_autofill_bounded_partial.
+
 (* fill of a single content whose fee and gas limit are left to the client, tz1/tz2/tz3 source, node
    limit not above the built-in default *)
 Theorem C24_fill_single_partial :
